@@ -161,8 +161,32 @@ fn random_history(id: String, seed: u64, cat: &Catalogue, rng: &mut SplitMix64, 
         cx.finish(sink);
         return;
     }
+    // ---- FAT[1] flag variants (FAT16/32): clean-shutdown / hard-error bits cleared in every FAT copy
+    let flagged = cx.vol.bits != 12 && rng.chance(11, 20);
+    if flagged {
+        let variant = rng.range(1, 3); // bit 0: clear "clean shutdown", bit 1: clear "no hard error"
+        let (clean_bit, err_bit, ones, width) = if cx.vol.bits == 16 {
+            (1u32 << 15, 1u32 << 14, 0xFFFFu32, 2usize)
+        } else {
+            (1u32 << 27, 1u32 << 26, 0x0FFF_FFFFu32, 4usize)
+        };
+        let mut v = ones;
+        if variant & 1 != 0 {
+            v &= !clean_bit;
+        }
+        if variant & 2 != 0 {
+            v &= !err_bit;
+        }
+        let ws: Vec<(u64, Vec<u8>)> = (0..cx.vol.fats)
+            .map(|c| (cx.vol.fat1_off(c), v.to_le_bytes()[..width].to_vec()))
+            .collect();
+        cx.step(Op::Raw(ws));
+    }
     // ---- the read-only session
     cx.mount();
+    if flagged {
+        cx.step(Op::Status);
+    }
     let mut g = NsGen {
         cx,
         names: FILE_NAMES.iter().chain(DIR_NAMES.iter()).map(|s| s.to_string()).collect(),
@@ -172,7 +196,14 @@ fn random_history(id: String, seed: u64, cat: &Catalogue, rng: &mut SplitMix64, 
     let mut guard = 0;
     while g.cx.h.n_ops() < target && !g.cx.dead && guard < 400 {
         guard += 1;
-        ro_op(&mut g, rng);
+        if flagged && rng.chance(1, 8) {
+            g.cx.step(Op::Status);
+        } else {
+            ro_op(&mut g, rng);
+        }
+    }
+    if flagged && !g.cx.dead {
+        g.cx.step(Op::Status);
     }
     if rng.chance(3, 4) {
         g.cx.closing_lists();
